@@ -37,7 +37,10 @@ type world struct {
 	db      youdb.Database
 }
 
-const ctxRound = 100
+const (
+	ctxRound = 100
+	ctxIndex = uint32(1)
+)
 
 func newWorld() *world {
 	w := &world{keys: fixture.Keys("rlp", 4), db: youdb.NewMemDatabase()}
@@ -48,7 +51,6 @@ func newWorld() *world {
 		return state.NewValidator("v", addr, addr, params.RoleChancellor, k.PubComp, k.BlsPkB, big.NewInt(100), big.NewInt(10), 1, 0, 0, params.ValidatorOnline), false
 	}
 	w.handler = ucon.VerifRlpNewHandler(w.keys[1].Priv, w.keys[1].BlsSk, getVal, &w.yp)
-	w.handler.VerifRlpSetContext(big.NewInt(ctxRound), 1)
 	// staking: a state with one validator operated by key 2
 	st, sdb := fixture.NewMemState()
 	w.opKey = w.keys[2]
@@ -65,6 +67,11 @@ func newWorld() *world {
 		panic(err)
 	}
 	w.sdb, w.roots = sdb, [3]common.Hash{r1, r2, r3}
+	vld, err := state.New(r1, r2, r3, sdb)
+	if err != nil {
+		panic(err)
+	}
+	w.handler.VerifRlpSetContext(big.NewInt(ctxRound), ctxIndex, vld, &w.yp)
 	return w
 }
 
